@@ -272,7 +272,7 @@ def run(case):
             dn = np.sqrt(np.clip(np.diag(Cn), 1e-300, None))
             cc = np.linalg.cond(Cn / np.outer(dn, dn)) if len(fi) > 1 and np.all(np.isfinite(Cn)) else 1.0
             btol = 2e-2 * max(1.0, cc / 50.0)
-            if np.isfinite(cc) and cc <= 1e3 and np.all(np.isfinite(want)) and np.any(np.abs(np.asarray(h, float) - want) > btol * want + 1e-6 * np.max(want) + 1e-9 * float(np.max(np.abs(rf.d)))):
+            if np.isfinite(cc) and cc <= 1e3 and np.all(np.isfinite(want)) and np.any(np.abs(np.asarray(h, float) - want) > btol * want + 1e-3 * np.max(want) + 1e-9 * float(np.max(np.abs(rf.d)))):  # floor: the tails of a peak carry no information
                 raise Violation("error-band-vs-reported-covariance", f"{where}: error_band = {_s(h)}, sqrt(diag(J C J^T)) with the covariance matrix the fit reports now = {_s(want)}; "
                                 f"fixed {sorted(cfg.spec['fixed'])}")
         try:
